@@ -207,7 +207,10 @@ def _outputs_are_node_results(ip):
     if not produced:
         ip.stmts.append(Stmt(op="one", args=[], names=[f"v{len(ip.stmts)}"], cfg=dict(priority=0, is_sequential=False, resource=Resource.thread)))
         produced = [ip.stmts[-1].names[0]]
-    fix = lambda r: r if r[0] == "var" else ("var", produced[0], [])  # noqa: E731
+    # only results of the flagged sub-DAG's OWN nodes: a reference to the result of a further nested DAG may again be
+    # one of that DAG's constants / parameters (the same known finding, one level down)
+    own = {nm for st in ip.stmts if st.kind == "op" for nm in st.names}
+    fix = lambda r: r if (r[0] == "var" and r[1] in own) else ("var", produced[0], [])  # noqa: E731
     sh = ip.ret
     if sh[0] == "single":
         ip.ret = ("single", fix(sh[1]))
